@@ -1,5 +1,6 @@
 \* storage level with an explicit view carried through all later steps (one disjunct per code
 \* case, used with -coverage): head 0..1, <= 2 slots, ids {a, blank}, <= 1 tx per slot, newClasses {} or {k1}, one view
+\* measured: 14,964 distinct / 642,925 generated states, depth 15 (~60 s with -coverage 1; every action taken)
 CONSTANTS
   MaxHead = 1
   MaxSlots = 2
